@@ -205,7 +205,7 @@ func queryCode(loc string) (code string, u *url.URL) {
 func TestProp(t *testing.T) {
 	env := vh.GetEnv()
 	rep := vh.NewReport("C09", "exploration")
-	rep.Rule("part A: strided enumeration of cookie-class{absent,garbage,other-key,code-key,truncated,genuine} x lifetime{past,future} x token-expiry{past,future} x refresh-token{present,absent} x introspect-answer(11 classes) x refresh-answer(10 classes) x e-mail-class(9) x rule-kind(4) against /sign_in; part B: callback state-nonce/CSRF-cookie combinations (own, cross-browser, absent, altered, prefix either way, empty, malformed, never-issued, other authenticator's) x IdP token/userinfo answers x e-mail rule over two independent /start flows; part D (concurrent): groups of 2-3 simultaneous /sign_in requests on one authenticator whose access tokens (validate path) or refresh tokens (refresh path) are long JWT-like strings related by common prefix / common suffix / one middle byte / letter case / one a prefix of the other / unrelated, same or different e-mails, every live/revoked assignment and order; the first request's IdP answer is held until the others are in flight; part C: sequences of 3-10 sign-ins in virtual time (cookie re-sealing) across refreshes until the lifetime passes. distinct = the tuple of dimensions that matter for the case (irrelevant IdP answers are left out), counted only when the authenticator answered")
+	rep.Rule("part A: strided enumeration of cookie-class{absent,garbage,other-key,code-key,truncated,genuine} x lifetime{past,future} x token-expiry{past,future} x refresh-token{present,absent} x introspect-answer(11 classes) x refresh-answer(10 classes) x e-mail-class(9) x rule-kind(4) against /sign_in; part B: callback state-nonce/CSRF-cookie combinations (own, cross-browser, absent, altered, prefix either way, empty, malformed, never-issued, other authenticator's) x IdP token/userinfo answers x e-mail rule over two independent /start flows; part D (concurrent): groups of 2-3 simultaneous /sign_in requests on one authenticator whose access tokens (validate path) or refresh tokens (refresh path) are long JWT-like strings related by common prefix / common suffix / one middle byte / letter case / one a prefix of the other / unrelated, same or different e-mails, every live/revoked assignment and order; the first request's IdP answer is held until the others are in flight; part H (histories): 2-6 /sign_in visits of one browser that always presents the cookie the previous response re-issued, the IdP's answer flipping between visits, virtual gaps from {0,5s,30s,59s,2min,10min,61min}, first cookie minted with zero/past/future ValidDeadline and GracePeriodStart; every visit that ends in a code must show a confirming IdP call for that token in the log delta of that visit; part C: sequences of 3-10 sign-ins in virtual time (cookie re-sealing) across refreshes until the lifetime passes. distinct = the tuple of dimensions that matter for the case (irrelevant IdP answers are left out), counted only when the authenticator answered")
 	rep.Assume("the fake IdP answers exactly as scripted and logs every call; tokens are unique per case, so sso's request coalescing never merges two cases")
 	rep.Assume("ground truth 'IdP confirmed' = scripted 200 {active:true} to introspect when no refresh is due, or a scripted well-formed 200 with a non-empty access token to the refresh grant when it is due and the session has a refresh token; a successful refresh counts as acceptance of the new token")
 	rep.Assume("concurrent groups: 'overlapped' is read off the fake IdP's own sequence numbers (the follower's call started before the first one's ended), never off the wall clock; a group that did not overlap is only not counted")
@@ -246,6 +246,12 @@ func TestProp(t *testing.T) {
 	} else {
 		replaying = true
 	}
+	if only, skip := env.Only(streamHistory); !skip {
+		replaying = replaying || only >= 0
+		runHistory(rep, env, stacks, only)
+	} else {
+		replaying = true
+	}
 	if only, skip := env.Only(streamLifetime); !skip {
 		replaying = replaying || only >= 0
 		runLifetime(rep, env, stacks, only)
@@ -274,6 +280,9 @@ func TestProp(t *testing.T) {
 			"signin_refused_only_refresh_due_without_refresh_token", "signin_refused_only_email_rule",
 			"callback_session_created_own_flow", "callback_refused_cross_browser", "callback_refused_prefix_nonce",
 			"lifetime_expiry_observed", "lifetime_refresh_observed", "lifetime_codes_issued",
+			"history_code_after_earlier_success", "history_refused_within_a_minute_of_a_successful_visit",
+			"history_refused_after_earlier_success_path_validate", "history_refused_after_earlier_success_path_refresh",
+			"history_refused_minted_cookie_with_future_valid_deadline", "history_code_via_validate", "history_code_via_refresh",
 			"concurrent_overlap_path_validate", "concurrent_overlap_path_refresh", "concurrent_code_via_validate", "concurrent_code_via_refresh",
 		} {
 			rep.Floor(f, 5)
